@@ -118,6 +118,40 @@ class StimPlan(Plan):
         return [("now", raw)]
 
 
+LATE_CASES = {
+    # name: (side that declares, condition, mode, what is held back until the first timer expiry has been served: (emitting side, PDU kinds))
+    "src_ack_limit": ("S", "POSITIVE_ACK_LIMIT_REACHED", "ack", ("D", {"ACK_EOF", "FIN"})),
+    "src_check_limit": ("S", "CHECK_LIMIT_REACHED", "unack", ("D", {"FIN"})),
+    "dst_ack_limit": ("D", "POSITIVE_ACK_LIMIT_REACHED", "ack", ("S", {"ACK_FIN"})),
+    "dst_nak_limit": ("D", "NAK_LIMIT_REACHED", "ack", ("D", {"NAK"})),
+    "dst_check_limit": ("D", "CHECK_LIMIT_REACHED", "unack", ("S", {"FD@4"})),
+}
+
+
+class LatePlan(Plan):
+    """The PDU(s) which would be progress for a timer-driven procedure are held back and delivered right after that procedure's first
+    expiry was served (with a limit of 1 that expiry declares the limit fault); everything else flows."""
+
+    def __init__(self, name):
+        super().__init__()
+        self.name = name
+        self.side, self.kinds = LATE_CASES[name][3]
+        self.dropped_fd = False
+
+    def on_emit(self, idx, item):
+        d, side = item["d"], item["side"]
+        k = d.get("kind")
+        if self.name == "dst_nak_limit" and side == "S" and k == "FD" and d.get("offset") == 4 and not self.dropped_fd:
+            self.dropped_fd = True
+            self.applied.append((idx, "drop", wire.short(d), side))
+            return []
+        tag = "FD@4" if (k == "FD" and d.get("offset") == 4) else k
+        if side == self.side and tag in self.kinds and self.runner.expiries == 0:
+            self.applied.append((idx, "late", wire.short(d), side))
+            return [("late", item["raw"])]
+        return [("now", item["raw"])]
+
+
 def install_spy(w: World):
     ok = True
     for ep in (w.S, w.D):
@@ -182,6 +216,14 @@ def gen_cases(tier, seed):
                 continue
             cases.append({"t": "sequence", "stim": [], "phases": [first, second], "table_s": {}, "table_d": {c: "abandon" for c in TABLE_CONDS},
                           "table_d2": {}, "mode": mode, "closure": True, "imm": imm, "size": 10, "seed": 77 + i, "decouple": "D", "md_lost": i % 3 == 0})
+    # an ignored limit fault lets the transaction continue: the progress the procedure was waiting for arrives right after the fault was
+    # declared (limit 1) and must still complete the transfer
+    for name, (side, cond, mode, _) in LATE_CASES.items():
+        for code in ("ignore", "cancel", "abandon"):
+            # (dst_check_limit without closure: with closure the sender's own check timer expires in the same instant and cancels)
+            for closure in ((True,) if name == "src_check_limit" else (False,) if name == "dst_check_limit" else (False, True)):
+                cases.append({"t": "late", "late": name, "stim": [], "table_s": {cond: code} if side == "S" else {}, "table_d": {cond: code} if side == "D" else {},
+                              "mode": mode, "closure": closure, "imm": False, "size": 10, "seed": 5, "decouple": side, "code": code})
     cases.append({"t": "api"})
     return cases
 
@@ -226,6 +268,8 @@ def run_case(case):
         cfg["rc_at_dst"] = dict(long_ivl)  # the receiver's timers are slow: the sender declares first
     elif case["decouple"] == "D":
         cfg["rc_at_src"] = dict(long_ivl)
+    if case["t"] == "late":
+        cfg.update({"ack_limit": 1, "nak_limit": 1, "check_limit": 1})
     viol, obs = [], {}
     with World(cfg) as w:
         if not install_spy(w):
@@ -256,6 +300,8 @@ def run_case(case):
             if "cancel_dst" in stim:
                 actions.setdefault(rng.choice([2, 3, 5]), []).append(("cancel", "D"))
             plan = StimPlan(stim, rng, md_lost=bool(case.get("md_lost")), mods=case.get("mods") or ())
+            if case["t"] == "late":
+                plan = LatePlan(case["late"])
             if case.get("mods"):
                 obs["runs_with_schedule_modifiers"] = 1
             w.log.add("phase", "-", pi=pi)
@@ -282,6 +328,18 @@ def run_case(case):
                     ep.outbox.clear()
                 if internal is not None:
                     break
+        if case["t"] == "late":
+            side = LATE_CASES[case["late"]][0]
+            obs["late_progress_cases_" + case["code"]] = 1
+            if case["code"] == "ignore":
+                fins = [tuple(e["fin"][:2]) for e in w.log.of("ind_finished", side)]
+                ep = w.S if side == "S" else w.D
+                if outcome != "done" or ep.h.state.name != "IDLE" or ("NO_ERROR", "DATA_COMPLETE") not in fins:
+                    viol.append({"clause": "ignored-fault-did-not-let-the-transaction-continue", "side": side, "cond": LATE_CASES[case["late"]][1], "outcome": outcome,
+                                 "state": ep.h.state.name, "step": ep.h.step.name, "fins": fins, "case": {k: v for k, v in case.items() if not k.startswith("table")},
+                                 "trace": trace_summary(w, r, 50)})
+                else:
+                    obs["ignored_limit_faults_followed_by_completion"] = 1
         stim = all_stim
         evs = w.log.events
         tables = {"S": dict(DEFAULTS, **case["table_s"]), "D": dict(DEFAULTS, **case["table_d"])}
@@ -492,4 +550,4 @@ def finalize(ctx):
     return [], inc
 
 
-REQUIRED = {"declarations_judged": 100, "abandons_judged": 20, "cancels_judged": 20, "ignores_judged": 20, "set_handler_probes": 40, "set_handler_refusals": 10}
+REQUIRED = {"ignored_limit_faults_followed_by_completion": 8, "declarations_judged": 100, "abandons_judged": 20, "cancels_judged": 20, "ignores_judged": 20, "set_handler_probes": 40, "set_handler_refusals": 10}
